@@ -20,13 +20,17 @@
        ipv6_packet                        IPv6 header (version, traffic class, flow label, payload length, next header,
                                           hop limit, addresses), any walked chain of extension headers, any payload
        chain_none, chain_hbh, chain_frag, chain_hbh_frag
-                                          no extension header; hop-by-hop header with one 4-byte option (PadN); fragment
-                                          header; both
+                                          no extension header; hop-by-hop header with one 4-byte option (PadN; type ≠ 0);
+                                          fragment header; both
+       chain_hbh_options, chain_hbh_pad1, chain_hbh_routerAlert_pad1
+                                          hop-by-hop header with ANY list of options (`Sw2.Opt`: Pad1 = one zero byte, or
+                                          type/length/data); Pad1 + PadN(3); router alert + two Pad1
        u6_icmpv6, u6_udp, u6_other        ICMPv6, UDP, any other upper-layer protocol behind IPv6
        frame_ipv4_icmp, frame_vlan_ipv4_udp, frame_vlan_ipv4_other, frame_vlan_arp, frame_ipv6_icmpv6,
-       frame_ipv6_hbh_icmpv6, frame_vlan_ipv6_hbh_frag_udp, frame_ipv6_frag_other      composed frames
+       frame_ipv6_hbh_icmpv6, frame_ipv6_hbhOptions_icmpv6, frame_vlan_ipv6_hbh_frag_udp, frame_ipv6_frag_other
+                                          composed frames
        packetIn_of                        packet-in with ANY decodable match and ANY decodable frame
-       packetIn_ipv4_icmp, packetIn_vlan_ipv4_udp, packetIn_vlan_arp, packetIn_ipv6_icmpv6,
+       packetIn_ipv4_icmp, packetIn_vlan_ipv4_udp, packetIn_vlan_arp, packetIn_ipv6_icmpv6, packetIn_ipv6_hbhOptions_icmpv6,
        packetIn_vlan_ipv6_hbh_frag_udp, packetIn_ipv6_frag_other   packet-in carrying these frames (any decodable match)
   2. Matches:
        oxm_basic                          every OXM TLV of class OFPXMC_OPENFLOW_BASIC for which the library has a
@@ -36,8 +40,9 @@
        match_of_tlvs, match_oxm           an `ofp_match` holding ANY list of decodable TLVs / of basic-class fields
        flowRemoved_match, packetIn_match  flow-removed / packet-in with such a match
   3. Instructions and actions:
-       action_output, action_setField, action_resubmitTable, instruction_gotoTable, instruction_writeMetadata,
-       action_setField_vlanVid, instruction_actions
+       action_output, action_setField, action_resubmitTable, action_setNwTtl, action_setMplsTtl, action_headerOnly
+       (copy_ttl_out, copy_ttl_in, dec_mpls_ttl, dec_nw_ttl, pop_pbb), instruction_gotoTable, instruction_meter,
+       instruction_writeMetadata, action_setField_vlanVid, instruction_actions
                                           one action / instruction from its bytes (apply-actions, write-actions,
                                           clear-actions with ANY list of decodable actions)
        instructions_of_list               any list of decodable instructions as the instruction part of a flow-stats record
@@ -46,19 +51,22 @@
        flowStatsReply_two                 two records: in_port match, [apply-actions [output, set-field, resubmit-table],
                                           goto-table, write-metadata]; and empty match, no instructions
 
-  COUNTEREXAMPLES — conforming contents that Parse does NOT hand over:
-       flowStatsReply_vlanPcp_dropped       SILENT LOSS: a flow-stats reply with two records, the first matching on vlan_vid
-                                            and vlan_pcp: Parse reports success and the first record's match holds vlan_vid
-                                            only (the error of the field decoder is overwritten by the next record)
-    the following return an error for the whole message:
+  4. Contents the library used to reject (counterexamples of the previous round, now positive after the repairs):
+       flowStatsReply_instructions        flow-stats reply, one record, any decodable match, ANY decodable instruction list
+       flowStatsReply_meter               … whose instruction list holds a meter instruction (any 32-bit meter id) anywhere
+       ttlActions_dec, instruction_ttlActions, flowStatsReply_setNwTtl
+                                          set_nw_ttl, set_mpls_ttl, copy_ttl_out, copy_ttl_in, dec_mpls_ttl, pop_pbb (8 bytes
+                                          each) inside any action list; the formerly rejected reply with set_nw_ttl
+       packetIn_ipv6_pad1                 the formerly rejected packet-in (hop-by-hop header Pad1 + PadN) with its value
+
+  COUNTEREXAMPLES — conforming contents that Parse does NOT hand over (an error for the whole message):
        packetIn_unsupportedField_rejected   a match that contains in_phy_port (1), vlan_pcp (7), ip_ecn (9), mpls_tc (35),
                                             pbb_isid (37) or ipv6_exthdr (39) — in_phy_port is part of every packet-in of
                                             a switch with logical ports
-       flowStatsReply_meter_rejected        a flow entry with a meter instruction (type 6)
-       flowStatsReply_setNwTtl_rejected     a flow entry whose apply-actions holds set_nw_ttl (same code path: set_mpls_ttl,
-                                            copy_ttl_in/out, dec_mpls_ttl, pop_pbb — the library takes these 8-byte
-                                            actions for 4 bytes)
-       packetIn_ipv6_pad1_rejected          a packet-in whose IPv6 packet has a hop-by-hop header with a Pad1 option
+       flowStatsReply_unsupportedField_rejected, flowStatsReply_vlanPcp_rejected
+                                            the same in a flow-stats record (after any decodable records, whatever
+                                            follows); for vlan_vid + vlan_pcp this reply used to SUCCEED with the vlan_pcp
+                                            silently dropped — the multipart loop now returns the first record's error
   Remarks (not defects of C04): the decoders take everything behind a header as payload — an Ethernet trailer (padding of
   a short frame) ends up in the UDP / ICMP data; IPv4 addresses inside a match come back in the 16-byte `net.IP` form.
 
@@ -230,8 +238,33 @@ def hbhBytes (nh oty : UInt8) (optData : Bytes) : Bytes := [nh, 0, oty, 4] ++ op
 def hbhV (nh oty : UInt8) (optData : Bytes) : V :=
   .obj "p.HopByHopHeader" [.num nh.toNat, .num 0, .list [.obj "p.Option" [.num oty.toNat, .num 4, .bytes optData]]]
 
-theorem chain_hbh (nh oty : UInt8) (optData : Bytes) (hod : optData.length = 4) (h : Sw2.Upper nh) :
-    Sw2.Chain 0 (hbhBytes nh oty optData) nh (hbhV nh oty optData) .nil .nil := Sw2.chain_hbh nh oty optData hod h
+/-- (`oty ≠ 0`: type 0 is Pad1, which has neither length nor data — see `chain_hbh_pad1`) -/
+theorem chain_hbh (nh oty : UInt8) (hoty : oty.toNat ≠ 0) (optData : Bytes) (hod : optData.length = 4) (h : Sw2.Upper nh) :
+    Sw2.Chain 0 (hbhBytes nh oty optData) nh (hbhV nh oty optData) .nil .nil := Sw2.chain_hbh nh oty hoty optData hod h
+
+/-- hop-by-hop options header in general: next header(1), hdr ext len(1), then ANY list of options (`Sw2.Opt`: Pad1 = the
+    single byte 0; every other option = type ≠ 0, data length, data) filling the `8 * (hdr ext len + 1)` bytes -/
+def hbhOptsBytes (nh hel : UInt8) (os : List Sw2.Opt) : Bytes := [nh, hel] ++ Sw2.optsBytes os
+
+/-- every option comes back, in order: `p.HopByHopHeader(nh, hel, [p.Option(type, length, data) …])`, a Pad1 as
+    `p.Option(0, 0, [])` -/
+theorem chain_hbh_options (nh hel : UInt8) (os : List Sw2.Opt) (hos : ∀ o ∈ os, o.OK)
+    (hlen : 2 + (Sw2.optsBytes os).length = 8 * (hel.toNat + 1)) (h : Sw2.Upper nh) :
+    Sw2.Chain 0 (hbhOptsBytes nh hel os) nh (Sw2.hbhOptsV nh hel os) .nil .nil := Sw2.chain_hbh_opts nh hel os hos hlen h
+
+/-- the padding of RFC 8200: a Pad1 option followed by PadN with three data bytes (00 | 01 03 00 00 00) … -/
+theorem chain_hbh_pad1 (nh : UInt8) (h : Sw2.Upper nh) :
+    Sw2.Chain 0 [nh, 0, 0, 1, 3, 0, 0, 0] nh
+      (.obj "p.HopByHopHeader" [.num nh.toNat, .num 0, .list [.obj "p.Option" [.num 0, .num 0, .bytes []],
+        .obj "p.Option" [.num 1, .num 3, .bytes [0, 0, 0]]]]) .nil .nil :=
+  Sw2.chain_hbh_pad1_padN nh h
+
+/-- … and a router-alert option (type 5, length 2, value) followed by two Pad1 options (MLD, RSVP) -/
+theorem chain_hbh_routerAlert_pad1 (nh : UInt8) (value : UInt16) (h : Sw2.Upper nh) :
+    Sw2.Chain 0 ([nh, 0, 5, 2] ++ (be16 value ++ [0, 0])) nh
+      (.obj "p.HopByHopHeader" [.num nh.toNat, .num 0, .list [.obj "p.Option" [.num 5, .num 2, .bytes (be16 value)],
+        .obj "p.Option" [.num 0, .num 0, .bytes []], .obj "p.Option" [.num 0, .num 0, .bytes []]]]) .nil .nil :=
+  Sw2.chain_hbh_routerAlert_pad1 nh value h
 
 /-- fragment header (next header 44): next header(1), reserved(1), fragment offset(13 bits) res(2 bits, zero) M(1 bit),
     identification(4) -/
@@ -260,11 +293,11 @@ theorem chain_frag (nh : UInt8) (offset : Nat) (more : Bool) (ident : UInt32) (h
   simpa only [fragBytes, List.append_assoc] using this
 
 /-- hop-by-hop header followed by a fragment header -/
-theorem chain_hbh_frag (oty : UInt8) (optData : Bytes) (hod : optData.length = 4) (nh : UInt8) (offset : Nat) (more : Bool)
-    (ident : UInt32) (hoff : offset < 8192) (h : Sw2.Upper nh) :
+theorem chain_hbh_frag (oty : UInt8) (hoty : oty.toNat ≠ 0) (optData : Bytes) (hod : optData.length = 4) (nh : UInt8) (offset : Nat)
+    (more : Bool) (ident : UInt32) (hoff : offset < 8192) (h : Sw2.Upper nh) :
     Sw2.Chain 0 (hbhBytes 44 oty optData ++ fragBytes nh offset more ident) nh (hbhV 44 oty optData) .nil
       (fragV nh offset more ident) := by
-  have := Sw2.chain_hbh_frag oty optData hod nh 0 (UInt16.ofNat (offset * 8 + (if more then 1 else 0))) ident h
+  have := Sw2.chain_hbh_frag oty hoty optData hod nh 0 (UInt16.ofNat (offset * 8 + (if more then 1 else 0))) ident h
   have hv : Sw2.hbhV 44 oty optData = hbhV 44 oty optData := rfl
   rw [fragV_eq nh offset more ident hoff, hv] at this
   simpa only [hbhBytes, fragBytes, List.append_assoc] using this
@@ -398,14 +431,14 @@ theorem frame_ipv6_icmpv6 (dst src : Bytes) (ip : Ipv6Hdr) (ty code : UInt8) (ch
 theorem frame_vlan_ipv6_hbh_frag_udp (dst src : Bytes) (pcp dei vid : Nat) (ip : Ipv6Hdr) (oty : UInt8) (optData : Bytes)
     (offset : Nat) (more : Bool) (ident : UInt32) (sport dport ulen checksum : UInt16) (data : Bytes)
     (hdst : dst.length = 6) (hsrc : src.length = 6) (hpcp : pcp < 8) (hdei : dei < 2) (hvid : vid < 4096)
-    (hip : ip.OK) (hnh : ip.nextHeader = 0) (hod : optData.length = 4) (hoff : offset < 8192) :
+    (hip : ip.OK) (hnh : ip.nextHeader = 0) (hoty : oty.toNat ≠ 0) (hod : optData.length = 4) (hoff : offset < 8192) :
     FrameDec (ethTaggedBytes dst src pcp dei vid 0x86dd (ip.bytes ++ (hbhBytes 44 oty optData ++ fragBytes 17 offset more ident)
         ++ udpBytes sport dport ulen checksum data))
       (ethFrameV dst src (.obj "p.VLAN" [.num 0x8100, .num pcp, .num dei, .num vid]) 0x86dd
         (ip.val (hbhV 44 oty optData) .nil (fragV 17 offset more ident) (udpV sport dport ulen checksum data))) :=
   eth_tagged dst src pcp dei vid 0x86dd _ _ hdst hsrc hpcp hdei hvid
     (l3_ipv6 _ _ (ipv6_packet ip hip _ _ 17 _ _ _ _
-      (by rw [hnh]; exact chain_hbh_frag oty optData hod 17 offset more ident hoff (by decide))
+      (by rw [hnh]; exact chain_hbh_frag oty hoty optData hod 17 offset more ident hoff (by decide))
       (u6_udp sport dport ulen checksum data)))
 
 /-- untagged IPv6 fragment of a protocol the library does not look into -/
@@ -421,11 +454,21 @@ theorem frame_ipv6_frag_other (dst src : Bytes) (ip : Ipv6Hdr) (nxt : UInt8) (of
 /-- untagged IPv6 with a hop-by-hop header in front of ICMPv6 (MLD) -/
 theorem frame_ipv6_hbh_icmpv6 (dst src : Bytes) (ip : Ipv6Hdr) (oty : UInt8) (optData : Bytes) (ty code : UInt8)
     (checksum : UInt16) (data : Bytes) (hdst : dst.length = 6) (hsrc : src.length = 6) (hip : ip.OK)
-    (hnh : ip.nextHeader = 0) (hod : optData.length = 4) :
+    (hnh : ip.nextHeader = 0) (hoty : oty.toNat ≠ 0) (hod : optData.length = 4) :
     FrameDec (ethBytes dst src 0x86dd (ip.bytes ++ hbhBytes 58 oty optData ++ icmpBytes ty code checksum data))
       (ethFrameV dst src noVlanV 0x86dd (ip.val (hbhV 58 oty optData) .nil .nil (icmpV ty code checksum data))) :=
   eth_untagged dst src 0x86dd _ _ hdst hsrc (by decide)
-    (l3_ipv6 _ _ (ipv6_packet ip hip _ _ 58 _ _ _ _ (by rw [hnh]; exact chain_hbh 58 oty optData hod (by decide))
+    (l3_ipv6 _ _ (ipv6_packet ip hip _ _ 58 _ _ _ _ (by rw [hnh]; exact chain_hbh 58 oty hoty optData hod (by decide))
+      (u6_icmpv6 ty code checksum data)))
+
+/-- untagged IPv6 with a hop-by-hop header holding ANY list of options — Pad1, PadN, router alert, … — in front of ICMPv6 -/
+theorem frame_ipv6_hbhOptions_icmpv6 (dst src : Bytes) (ip : Ipv6Hdr) (hel : UInt8) (os : List Sw2.Opt) (ty code : UInt8)
+    (checksum : UInt16) (data : Bytes) (hdst : dst.length = 6) (hsrc : src.length = 6) (hip : ip.OK)
+    (hnh : ip.nextHeader = 0) (hos : ∀ o ∈ os, o.OK) (hlen : 2 + (Sw2.optsBytes os).length = 8 * (hel.toNat + 1)) :
+    FrameDec (ethBytes dst src 0x86dd (ip.bytes ++ hbhOptsBytes 58 hel os ++ icmpBytes ty code checksum data))
+      (ethFrameV dst src noVlanV 0x86dd (ip.val (Sw2.hbhOptsV 58 hel os) .nil .nil (icmpV ty code checksum data))) :=
+  eth_untagged dst src 0x86dd _ _ hdst hsrc (by decide)
+    (l3_ipv6 _ _ (ipv6_packet ip hip _ _ 58 _ _ _ _ (by rw [hnh]; exact chain_hbh_options 58 hel os hos hlen (by decide))
       (u6_icmpv6 ty code checksum data)))
 
 /-- packet-in carrying a tagged IPv4/UDP packet, with any decodable match -/
@@ -486,8 +529,8 @@ theorem packetIn_vlan_ipv6_hbh_frag_udp (xid : UInt32) (len : UInt16) (bufferId 
     (reason tableId : UInt8) (cookie : UInt64) (mb : Bytes) (mv : V) (hm : Sw2.MatchDec mb mv) (dst src : Bytes)
     (pcp dei vid : Nat) (ip : Ipv6Hdr) (oty : UInt8) (optData : Bytes) (offset : Nat) (more : Bool) (ident : UInt32)
     (sport dport ulen checksum : UInt16) (data : Bytes) (hdst : dst.length = 6) (hsrc : src.length = 6) (hpcp : pcp < 8)
-    (hdei : dei < 2) (hvid : vid < 4096) (hip : ip.OK) (hnh : ip.nextHeader = 0) (hod : optData.length = 4)
-    (hoff : offset < 8192) (depth : Nat) (s : Slice) (hwf : s.WF)
+    (hdei : dei < 2) (hvid : vid < 4096) (hip : ip.OK) (hnh : ip.nextHeader = 0) (hoty : oty.toNat ≠ 0)
+    (hod : optData.length = 4) (hoff : offset < 8192) (depth : Nat) (s : Slice) (hwf : s.WF)
     (hb : s.bytes = hdr 10 len xid ++ packetInFixed bufferId totalLen reason tableId cookie ++ mb ++ zeros 2
       ++ ethTaggedBytes dst src pcp dei vid 0x86dd (ip.bytes ++ (hbhBytes 44 oty optData ++ fragBytes 17 offset more ident)
         ++ udpBytes sport dport ulen checksum data)) :
@@ -496,7 +539,20 @@ theorem packetIn_vlan_ipv6_hbh_frag_udp (xid : UInt32) (len : UInt16) (bufferId 
         (ip.val (hbhV 44 oty optData) .nil (fragV 17 offset more ident) (udpV sport dport ulen checksum data)))) :=
   packetIn_of xid len bufferId totalLen reason tableId cookie mb mv hm _ _
     (frame_vlan_ipv6_hbh_frag_udp dst src pcp dei vid ip oty optData offset more ident sport dport ulen checksum data
-      hdst hsrc hpcp hdei hvid hip hnh hod hoff) depth s hwf hb
+      hdst hsrc hpcp hdei hvid hip hnh hoty hod hoff) depth s hwf hb
+
+/-- packet-in carrying an IPv6/ICMPv6 packet with a hop-by-hop header of ANY options (Pad1 included), any decodable match -/
+theorem packetIn_ipv6_hbhOptions_icmpv6 (xid : UInt32) (len : UInt16) (bufferId : UInt32) (totalLen : UInt16)
+    (reason tableId : UInt8) (cookie : UInt64) (mb : Bytes) (mv : V) (hm : Sw2.MatchDec mb mv) (dst src : Bytes) (ip : Ipv6Hdr)
+    (hel : UInt8) (os : List Sw2.Opt) (ty code : UInt8) (checksum : UInt16) (data : Bytes) (hdst : dst.length = 6)
+    (hsrc : src.length = 6) (hip : ip.OK) (hnh : ip.nextHeader = 0) (hos : ∀ o ∈ os, o.OK)
+    (hlen : 2 + (Sw2.optsBytes os).length = 8 * (hel.toNat + 1)) (depth : Nat) (s : Slice) (hwf : s.WF)
+    (hb : s.bytes = hdr 10 len xid ++ packetInFixed bufferId totalLen reason tableId cookie ++ mb ++ zeros 2
+      ++ ethBytes dst src 0x86dd (ip.bytes ++ hbhOptsBytes 58 hel os ++ icmpBytes ty code checksum data)) :
+    parse depth s = .ok (packetInV (hdrV 10 len.toNat xid) bufferId totalLen reason tableId cookie mv
+      (ethFrameV dst src noVlanV 0x86dd (ip.val (Sw2.hbhOptsV 58 hel os) .nil .nil (icmpV ty code checksum data)))) :=
+  packetIn_of xid len bufferId totalLen reason tableId cookie mb mv hm _ _
+    (frame_ipv6_hbhOptions_icmpv6 dst src ip hel os ty code checksum data hdst hsrc hip hnh hos hlen) depth s hwf hb
 
 /-- packet-in carrying an IPv6 fragment of an opaque protocol -/
 theorem packetIn_ipv6_frag_other (xid : UInt32) (len : UInt16) (bufferId : UInt32) (totalLen : UInt16) (reason tableId : UInt8)
@@ -616,11 +672,37 @@ theorem action_resubmitTable (inPort : UInt16) (table : UInt8) :
         .num inPort.toNat, .num table.toNat, .bytes (zeros 3), .num 0]) :=
   Sw2.act_resubmitTable inPort table
 
+/-- set_nw_ttl: type 23, length 8, ttl(1), pad(3) — ANY ttl; the ttl comes back -/
+theorem action_setNwTtl (ttl : UInt8) :
+    Sw2.ActDec (be16 23 ++ (be16 8 ++ [ttl, 0, 0, 0]))
+      (.obj "ActionNwTtl" [.obj "ActionHeader" [.num 23, .num 8], .num ttl.toNat, .bytes []]) :=
+  Sw2.act_setNwTtl ttl
+
+/-- set_mpls_ttl: type 15, length 8, ttl(1), pad(3) -/
+theorem action_setMplsTtl (ttl : UInt8) :
+    Sw2.ActDec (be16 15 ++ (be16 8 ++ [ttl, 0, 0, 0]))
+      (.obj "ActionMplsTtl" [.obj "ActionHeader" [.num 15, .num 8], .num ttl.toNat, .bytes []]) :=
+  Sw2.act_setMplsTtl ttl
+
+/-- the actions that consist of the header and four pad bytes — copy_ttl_out (11), copy_ttl_in (12), dec_mpls_ttl (16),
+    dec_nw_ttl (24), pop_pbb (27): type, length 8, pad(4).  (The library has one Go type for all of them.) -/
+theorem action_headerOnly (ty : UInt16)
+    (hty : ty.toNat = 11 ∨ ty.toNat = 12 ∨ ty.toNat = 16 ∨ ty.toNat = 24 ∨ ty.toNat = 27) :
+    Sw2.ActDec (be16 ty ++ (be16 8 ++ zeros 4))
+      (.obj "ActionDecNwTtl" [.obj "ActionHeader" [.num ty.toNat, .num 8], .bytes []]) :=
+  Sw2.act_headerOnly ty hty
+
 /-- goto-table: type 1, length 8, table id, pad(3) -/
 theorem instruction_gotoTable (tableId : UInt8) :
     Sw2.InstrDec (be16 1 ++ (be16 8 ++ [tableId, 0, 0, 0]))
       (.obj "InstrGotoTable" [.obj "InstrHeader" [.num 1, .num 8], .num tableId.toNat, .bytes []]) :=
   Sw2.instr_gotoTable tableId
+
+/-- meter: type 6, length 8, meter id(4) — ANY meter id -/
+theorem instruction_meter (meterId : UInt32) :
+    Sw2.InstrDec (be16 6 ++ (be16 8 ++ be32 meterId))
+      (.obj "InstrMeter" [.obj "InstrHeader" [.num 6, .num 8], .num meterId.toNat]) :=
+  Sw2.instr_meter meterId
 
 /-- write-metadata: type 2, length 24, pad(4), metadata(8), metadata_mask(8) -/
 theorem instruction_writeMetadata (metadata mask : UInt64) :
@@ -830,6 +912,192 @@ theorem flowStatsReply_two (xid : UInt32) (mpFlags : UInt16) (fx1 fx2 : Sw2.FsRe
       rfl)
   exact this
 
+/-! ## 4. Contents the library used to reject and now hands over (meter, ttl actions, Pad1) -/
+
+/-- flow-stats reply with ONE record: any decodable match, ANY list of decodable instructions -/
+theorem flowStatsReply_instructions (xid : UInt32) (mpFlags : UInt16) (fx : Sw2.FsRec) (mb : Bytes) (mv : V)
+    (hm : Sw2.MatchDec mb mv) (is : List (Bytes × V)) (his : ∀ p ∈ is, Sw2.InstrDec p.1 p.2)
+    (hsize : 16 + (48 + mb.length + (Sw2.wireCat is).length) < 65536) (depth : Nat) (s : Slice) (hwf : s.WF)
+    (hb : s.bytes = hdr 19 (UInt16.ofNat (16 + (48 + mb.length + (Sw2.wireCat is).length))) xid ++ be16 1 ++ be16 mpFlags ++ zeros 4
+      ++ (flowStatsFixed (UInt16.ofNat (48 + mb.length + (Sw2.wireCat is).length)) fx.tableId fx.durationSec fx.durationNsec
+            fx.priority fx.idleTimeout fx.hardTimeout fx.flags fx.cookie fx.packetCount fx.byteCount ++ mb ++ Sw2.wireCat is)) :
+    parse depth s = .ok (.obj "MultipartReply" [hdrV 19 (16 + (48 + mb.length + (Sw2.wireCat is).length)) xid, .num 1,
+      .num mpFlags.toNat, .bytes [], .list [flowStatsV (48 + mb.length + (Sw2.wireCat is).length) fx.tableId fx.durationSec
+        fx.durationNsec fx.priority fx.idleTimeout fx.hardTimeout fx.flags fx.cookie fx.packetCount fx.byteCount mv
+        (is.map Prod.snd)]]) := by
+  have hok : (mkRec fx mb mv (Sw2.wireCat is) (is.map Prod.snd)).OK :=
+    ⟨hm, instructions_of_list is his (by omega), by show 48 + mb.length + (Sw2.wireCat is).length < 65536; omega⟩
+  have hrl : (Sw2.recsBytes [mkRec fx mb mv (Sw2.wireCat is) (is.map Prod.snd)]).length
+      = 48 + mb.length + (Sw2.wireCat is).length := by
+    simp [Sw2.recsBytes, Sw2.FsRec.bytes_length, Sw2.FsRec.size, mkRec]
+  have := flowStatsReply_records xid mpFlags [mkRec fx mb mv (Sw2.wireCat is) (is.map Prod.snd)]
+    (by
+      intro r hr
+      simp only [List.mem_cons, List.not_mem_nil, or_false] at hr
+      subst hr
+      exact hok)
+    (by rw [hrl]; exact hsize) depth s hwf
+    (by
+      rw [hrl, hb]
+      simp only [hdr, flowStatsFixed, Sw2.recsBytes_cons, (show Sw2.recsBytes [] = [] from rfl), List.append_nil,
+        Sw2.FsRec.bytes, Sw2.FsRec.size, mkRec, List.append_assoc])
+  rw [hrl] at this
+  exact this
+
+theorem wireCat_insert (pre post : List (Bytes × V)) (b : Bytes) (v : V) :
+    Sw2.wireCat (pre ++ [(b, v)] ++ post) = Sw2.wireCat pre ++ b ++ Sw2.wireCat post := by
+  simp [Sw2.wireCat]
+
+/-- a flow-stats reply whose record carries a METER instruction (type 6, length 8, ANY 32-bit meter id) anywhere in its
+    instruction list — any decodable instructions `pre` before and `post` behind it, any decodable match — parses to
+    exactly that list: …, `InstrMeter(InstrHeader(6, 8), meterId)`, … -/
+theorem flowStatsReply_meter (xid : UInt32) (mpFlags : UInt16) (fx : Sw2.FsRec) (mb : Bytes) (mv : V)
+    (hm : Sw2.MatchDec mb mv) (meterId : UInt32) (pre post : List (Bytes × V)) (hpre : ∀ p ∈ pre, Sw2.InstrDec p.1 p.2)
+    (hpost : ∀ p ∈ post, Sw2.InstrDec p.1 p.2)
+    (hsize : 16 + (48 + mb.length + ((Sw2.wireCat pre).length + 8 + (Sw2.wireCat post).length)) < 65536)
+    (depth : Nat) (s : Slice) (hwf : s.WF)
+    (hb : s.bytes = hdr 19 (UInt16.ofNat (16 + (48 + mb.length + ((Sw2.wireCat pre).length + 8 + (Sw2.wireCat post).length)))) xid
+      ++ be16 1 ++ be16 mpFlags ++ zeros 4
+      ++ (flowStatsFixed (UInt16.ofNat (48 + mb.length + ((Sw2.wireCat pre).length + 8 + (Sw2.wireCat post).length))) fx.tableId
+            fx.durationSec fx.durationNsec fx.priority fx.idleTimeout fx.hardTimeout fx.flags fx.cookie fx.packetCount fx.byteCount
+          ++ mb ++ (Sw2.wireCat pre ++ (be16 6 ++ be16 8 ++ be32 meterId) ++ Sw2.wireCat post))) :
+    parse depth s = .ok (.obj "MultipartReply" [
+      hdrV 19 (16 + (48 + mb.length + ((Sw2.wireCat pre).length + 8 + (Sw2.wireCat post).length))) xid, .num 1,
+      .num mpFlags.toNat, .bytes [], .list [flowStatsV (48 + mb.length + ((Sw2.wireCat pre).length + 8 + (Sw2.wireCat post).length))
+        fx.tableId fx.durationSec fx.durationNsec fx.priority fx.idleTimeout fx.hardTimeout fx.flags fx.cookie fx.packetCount
+        fx.byteCount mv
+        (pre.map Prod.snd ++ [.obj "InstrMeter" [.obj "InstrHeader" [.num 6, .num 8], .num meterId.toNat]] ++ post.map Prod.snd)]]) := by
+  have hcat := wireCat_insert pre post (be16 6 ++ (be16 8 ++ be32 meterId)) (Sw2.meterV meterId)
+  have hl : (Sw2.wireCat (pre ++ [(be16 6 ++ (be16 8 ++ be32 meterId), Sw2.meterV meterId)] ++ post)).length
+      = (Sw2.wireCat pre).length + 8 + (Sw2.wireCat post).length := by
+    rw [hcat]; simp; omega
+  have hmap : (pre ++ [(be16 6 ++ (be16 8 ++ be32 meterId), Sw2.meterV meterId)] ++ post).map Prod.snd
+      = pre.map Prod.snd ++ [.obj "InstrMeter" [.obj "InstrHeader" [.num 6, .num 8], .num meterId.toNat]] ++ post.map Prod.snd := by
+    simp [Sw2.meterV]
+  have := flowStatsReply_instructions xid mpFlags fx mb mv hm
+    (pre ++ [(be16 6 ++ (be16 8 ++ be32 meterId), Sw2.meterV meterId)] ++ post)
+    (by
+      intro p hp
+      simp only [List.mem_append, List.mem_cons, List.not_mem_nil, or_false] at hp
+      rcases hp with (hp | rfl) | hp
+      · exact hpre p hp
+      · exact instruction_meter meterId
+      · exact hpost p hp)
+    (by rw [hl]; exact hsize) depth s hwf
+    (by rw [hl, hcat, hb]; simp only [List.append_assoc])
+  rw [hl, hmap] at this
+  exact this
+
+/-- the six actions concerned, each with its wire form (8 bytes) and value: set_nw_ttl, set_mpls_ttl, copy_ttl_out,
+    copy_ttl_in, dec_mpls_ttl, pop_pbb -/
+def ttlActions (nwTtl mplsTtl : UInt8) : List (Bytes × V) :=
+  [(be16 23 ++ (be16 8 ++ [nwTtl, 0, 0, 0]), .obj "ActionNwTtl" [.obj "ActionHeader" [.num 23, .num 8], .num nwTtl.toNat, .bytes []]),
+   (be16 15 ++ (be16 8 ++ [mplsTtl, 0, 0, 0]),
+     .obj "ActionMplsTtl" [.obj "ActionHeader" [.num 15, .num 8], .num mplsTtl.toNat, .bytes []]),
+   (be16 11 ++ (be16 8 ++ zeros 4), .obj "ActionDecNwTtl" [.obj "ActionHeader" [.num 11, .num 8], .bytes []]),
+   (be16 12 ++ (be16 8 ++ zeros 4), .obj "ActionDecNwTtl" [.obj "ActionHeader" [.num 12, .num 8], .bytes []]),
+   (be16 16 ++ (be16 8 ++ zeros 4), .obj "ActionDecNwTtl" [.obj "ActionHeader" [.num 16, .num 8], .bytes []]),
+   (be16 27 ++ (be16 8 ++ zeros 4), .obj "ActionDecNwTtl" [.obj "ActionHeader" [.num 27, .num 8], .bytes []])]
+
+theorem ttlActions_dec (nwTtl mplsTtl : UInt8) : ∀ p ∈ ttlActions nwTtl mplsTtl, Sw2.ActDec p.1 p.2 := by
+  intro p hp
+  simp only [ttlActions, List.mem_cons, List.not_mem_nil, or_false] at hp
+  rcases hp with rfl | rfl | rfl | rfl | rfl | rfl
+  · exact action_setNwTtl nwTtl
+  · exact action_setMplsTtl mplsTtl
+  · exact action_headerOnly 11 (by decide)
+  · exact action_headerOnly 12 (by decide)
+  · exact action_headerOnly 16 (by decide)
+  · exact action_headerOnly 27 (by decide)
+
+/-- write-actions / apply-actions holding these six actions between ANY decodable actions `pre` and `post`: every action
+    comes back, in order, the ttl values included -/
+theorem instruction_ttlActions (ty : UInt16) (hty : ty.toNat = 3 ∨ ty.toNat = 4 ∨ ty.toNat = 5) (nwTtl mplsTtl : UInt8)
+    (pre post : List (Bytes × V)) (hpre : ∀ p ∈ pre, Sw2.ActDec p.1 p.2) (hpost : ∀ p ∈ post, Sw2.ActDec p.1 p.2)
+    (hlen : 8 + (Sw2.wireCat (pre ++ ttlActions nwTtl mplsTtl ++ post)).length < 65536) :
+    Sw2.InstrDec (be16 ty ++ (be16 (UInt16.ofNat (8 + (Sw2.wireCat (pre ++ ttlActions nwTtl mplsTtl ++ post)).length))
+        ++ (zeros 4 ++ Sw2.wireCat (pre ++ ttlActions nwTtl mplsTtl ++ post))))
+      (.obj "InstrActions" [.obj "InstrHeader" [.num ty.toNat, .num (8 + (Sw2.wireCat (pre ++ ttlActions nwTtl mplsTtl ++ post)).length)],
+        .bytes [], .list ((pre ++ ttlActions nwTtl mplsTtl ++ post).map Prod.snd)]) :=
+  instruction_actions ty hty _ (by
+    intro p hp
+    simp only [List.mem_append] at hp
+    rcases hp with (hp | hp) | hp
+    · exact hpre p hp
+    · exact ttlActions_dec nwTtl mplsTtl p hp
+    · exact hpost p hp) hlen
+
+/-- the flow-stats reply that used to be rejected: a record (any decodable match, any fixed fields) whose apply-actions
+    holds set_nw_ttl (type 23, length 8, ANY ttl, pad 3) parses, and the ttl comes back -/
+theorem flowStatsReply_setNwTtl (xid : UInt32) (mpFlags : UInt16) (fx : Sw2.FsRec) (mb : Bytes) (mv : V)
+    (hm : Sw2.MatchDec mb mv) (ttl : UInt8) (depth : Nat) (s : Slice) (hwf : s.WF)
+    (hb : s.bytes = hdr 19 (UInt16.ofNat (16 + (48 + mb.length + 16))) xid ++ be16 1 ++ be16 mpFlags ++ zeros 4
+      ++ (flowStatsFixed (UInt16.ofNat (48 + mb.length + 16)) fx.tableId fx.durationSec fx.durationNsec fx.priority fx.idleTimeout
+            fx.hardTimeout fx.flags fx.cookie fx.packetCount fx.byteCount ++ mb
+          ++ (be16 4 ++ be16 16 ++ zeros 4 ++ (be16 23 ++ be16 8 ++ [ttl, 0, 0, 0])))) :
+    parse depth s = .ok (.obj "MultipartReply" [hdrV 19 (16 + (48 + mb.length + 16)) xid, .num 1, .num mpFlags.toNat, .bytes [],
+      .list [flowStatsV (48 + mb.length + 16) fx.tableId fx.durationSec fx.durationNsec fx.priority fx.idleTimeout fx.hardTimeout
+        fx.flags fx.cookie fx.packetCount fx.byteCount mv
+        [.obj "InstrActions" [.obj "InstrHeader" [.num 4, .num 16], .bytes [],
+          .list [.obj "ActionNwTtl" [.obj "ActionHeader" [.num 23, .num 8], .num ttl.toNat, .bytes []]]]]]]) := by
+  have hmb := hm.2.2
+  have hact : ∀ p ∈ [(be16 23 ++ (be16 8 ++ [ttl, 0, 0, 0]),
+      V.obj "ActionNwTtl" [.obj "ActionHeader" [.num 23, .num 8], .num ttl.toNat, .bytes []])], Sw2.ActDec p.1 p.2 := by
+    intro p hp
+    simp only [List.mem_cons, List.not_mem_nil, or_false] at hp
+    subst hp
+    exact action_setNwTtl ttl
+  have hwl : (Sw2.wireCat [(be16 23 ++ (be16 8 ++ [ttl, 0, 0, 0]),
+      V.obj "ActionNwTtl" [.obj "ActionHeader" [.num 23, .num 8], .num ttl.toNat, .bytes []])]).length = 8 := rfl
+  have hi := instruction_actions 4 (by decide) _ hact (by rw [hwl]; decide)
+  simp only [hwl, Nat.reduceAdd] at hi
+  have hil : (Sw2.wireCat [(be16 4 ++ (be16 (UInt16.ofNat 16) ++ (zeros 4 ++ Sw2.wireCat [(be16 23 ++ (be16 8 ++ [ttl, 0, 0, 0]),
+        V.obj "ActionNwTtl" [.obj "ActionHeader" [.num 23, .num 8], .num ttl.toNat, .bytes []])])),
+      V.obj "InstrActions" [.obj "InstrHeader" [.num (4 : UInt16).toNat, .num 16], .bytes [],
+        .list ([(be16 23 ++ (be16 8 ++ [ttl, 0, 0, 0]),
+          V.obj "ActionNwTtl" [.obj "ActionHeader" [.num 23, .num 8], .num ttl.toNat, .bytes []])].map Prod.snd)])]).length = 16 := rfl
+  have := flowStatsReply_instructions xid mpFlags fx mb mv hm [(_, _)]
+    (by
+      intro p hp
+      simp only [List.mem_cons, List.not_mem_nil, or_false] at hp
+      subst hp
+      exact hi)
+    (by rw [hil]; omega) depth s hwf
+    (by
+      rw [hil, hb]
+      simp only [Sw2.wireCat, List.map, List.flatten, List.append_assoc]
+      rfl)
+  rw [hil] at this
+  exact this
+
+/-- an IPv6 packet (next header 0) with a hop-by-hop header made of a Pad1 option (one zero byte) and a PadN option of
+    5 bytes (01 03 00 00 00), in front of an ICMPv6 echo request -/
+def ipv6HbhPad1 : Bytes :=
+  be32 0x60000000 ++ be16 20 ++ [0, 64] ++ (zeros 15 ++ [1]) ++ (zeros 15 ++ [2])
+    ++ [58, 0, 0, 1, 3, 0, 0, 0] ++ icmpBytes 128 0 0x1234 [1, 2, 3, 4]
+
+/-- the packet-in carrying that packet — it used to be rejected — parses: the hop-by-hop header comes back with its two
+    options, the ICMPv6 message behind it (general statement: `packetIn_ipv6_hbhOptions_icmpv6`) -/
+theorem packetIn_ipv6_pad1 :
+    parse 0 (Slice.exact (hdr 10 112 3 ++ packetInFixed 0xffffffff 70 0 0 0 ++ matchInPort 1 ++ zeros 2
+      ++ ethBytes [0x33, 0x33, 0, 0, 0, 1] [2, 0, 0, 0, 0, 1] 0x86dd ipv6HbhPad1))
+    = .ok (packetInV (hdrV 10 112 3) 0xffffffff 70 0 0 0 (Sw.matchInPortV 1)
+        (ethFrameV [0x33, 0x33, 0, 0, 0, 1] [2, 0, 0, 0, 0, 1] noVlanV 0x86dd
+          (.obj "p.IPv6" [.num 6, .num 0, .num 0, .num 20, .num 0, .num 64, .bytes (zeros 15 ++ [1]), .bytes (zeros 15 ++ [2]),
+            .obj "p.HopByHopHeader" [.num 58, .num 0, .list [.obj "p.Option" [.num 0, .num 0, .bytes []],
+              .obj "p.Option" [.num 1, .num 3, .bytes [0, 0, 0]]]],
+            .nil, .nil, icmpV 128 0 0x1234 [1, 2, 3, 4]]))) :=
+  packetIn_ipv6_hbhOptions_icmpv6 3 112 0xffffffff 70 0 0 0 _ _ (matchInPort_dec 1) [0x33, 0x33, 0, 0, 0, 1] [2, 0, 0, 0, 0, 1]
+    { trafficClass := 0, flowLabel := 0, payloadLen := 20, nextHeader := 0, hopLimit := 64, src := zeros 15 ++ [1],
+      dst := zeros 15 ++ [2] } 0 [.pad1, .tlv 1 [0, 0, 0]] 128 0 0x1234 [1, 2, 3, 4] rfl rfl (by decide) rfl
+    (by
+      intro o ho
+      simp only [List.mem_cons, List.not_mem_nil, or_false] at ho
+      rcases ho with rfl | rfl
+      · trivial
+      · exact ⟨by decide, by decide⟩)
+    rfl 0 _ (Slice.exact_wf _) (Sw.exact_bytes _)
+
 /-! ## Counterexamples: conforming contents that Parse does not hand over -/
 
 /-- COUNTEREXAMPLE: a packet-in whose match contains — after any list of decodable basic-class fields — a TLV of
@@ -868,107 +1136,83 @@ theorem packetIn_unsupportedField_rejected (xid : UInt32) (len : UInt16) (buffer
     Sw.u64From_at s 16 cookie _ (by rw [hb]; rfl), h1, hmatch]
   rfl
 
-/-- COUNTEREXAMPLE: a flow-stats reply whose (only) record carries a meter instruction (type 6, length 8, meter id below
-    65536) — for any decodable match and any fixed fields — is REJECTED: the library takes the instruction for 4 bytes
-    and decodes the meter id as the next instruction -/
-theorem flowStatsReply_meter_rejected (xid : UInt32) (mpFlags : UInt16) (fx : Sw2.FsRec) (mb : Bytes) (mv : V)
-    (hm : Sw2.MatchDec mb mv) (meterId : UInt16) (depth : Nat) (s : Slice) (hwf : s.WF)
-    (hb : s.bytes = hdr 19 (UInt16.ofNat (16 + (48 + mb.length + 8))) xid ++ be16 1 ++ be16 mpFlags ++ zeros 4
-      ++ (flowStatsFixed (UInt16.ofNat (48 + mb.length + 8)) fx.tableId fx.durationSec fx.durationNsec fx.priority fx.idleTimeout
-            fx.hardTimeout fx.flags fx.cookie fx.packetCount fx.byteCount ++ mb
-          ++ (be16 6 ++ be16 8 ++ (be16 0 ++ be16 meterId)))) :
-    parse depth s = .err := by
-  have hmb := hm.2.2
-  exact Sw2.flowStats_reply_instr_panic xid mpFlags (mkRec fx mb mv (be16 6 ++ (be16 8 ++ (be16 0 ++ be16 meterId))) []) hm
-    (by show 16 + (48 + mb.length + 8) < 65536; omega)
-    (fun d hdwf hdrop => Sw2.instrs_meter_panic d hdwf _ meterId [] (by rw [hdrop]; rfl) _
-      (by show 48 + mb.length + 8 ≤ 48 + mb.length + 8; omega))
-    depth s hwf (by
-      rw [hb]
-      simp only [hdr, flowStatsFixed, Sw2.FsRec.bytes, Sw2.FsRec.size, mkRec, List.append_assoc]
-      rfl)
-
-/-- COUNTEREXAMPLE: a flow-stats reply whose record carries apply-actions [set_nw_ttl ttl] (action type 23, length 8,
-    ttl ≠ 0, pad 3) is REJECTED: the library takes the 8-byte action for 4 bytes and decodes `ttl 00 00 00` as the next
-    action.  (set_mpls_ttl, copy_ttl_in, copy_ttl_out, dec_mpls_ttl and pop_pbb are sized the same way.) -/
-theorem flowStatsReply_setNwTtl_rejected (xid : UInt32) (mpFlags : UInt16) (fx : Sw2.FsRec) (mb : Bytes) (mv : V)
-    (hm : Sw2.MatchDec mb mv) (ttl : UInt8) (httl : ttl.toNat ≠ 0) (depth : Nat) (s : Slice) (hwf : s.WF)
-    (hb : s.bytes = hdr 19 (UInt16.ofNat (16 + (48 + mb.length + 16))) xid ++ be16 1 ++ be16 mpFlags ++ zeros 4
-      ++ (flowStatsFixed (UInt16.ofNat (48 + mb.length + 16)) fx.tableId fx.durationSec fx.durationNsec fx.priority fx.idleTimeout
-            fx.hardTimeout fx.flags fx.cookie fx.packetCount fx.byteCount ++ mb
-          ++ (be16 4 ++ be16 16 ++ zeros 4 ++ (be16 23 ++ be16 8 ++ [ttl, 0, 0, 0])))) :
-    parse depth s = .err := by
-  have hmb := hm.2.2
-  exact Sw2.flowStats_reply_instr_panic xid mpFlags
-    (mkRec fx mb mv (be16 4 ++ (be16 16 ++ (zeros 4 ++ (be16 23 ++ (be16 8 ++ [ttl, 0, 0, 0]))))) []) hm
-    (by show 16 + (48 + mb.length + 16) < 65536; omega)
-    (fun d hdwf hdrop => Sw2.instrs_applySetNwTtl_panic d hdwf _ ttl httl [] (by rw [hdrop]; rfl) _
-      (by show 48 + mb.length + 16 ≤ 48 + mb.length + 16; omega))
-    depth s hwf (by
-      rw [hb]
-      simp only [hdr, flowStatsFixed, Sw2.FsRec.bytes, Sw2.FsRec.size, mkRec, List.append_assoc]
-      rfl)
-
 /-- the padded match [vlan_vid = vid, vlan_pcp = pcp] of the specification: 4 + 6 + 5 = 15 bytes, one pad byte -/
 def matchVidPcp (vid : UInt16) (pcp : UInt8) : Bytes :=
   be16 1 ++ be16 15 ++ (be16 0x8000 ++ [12, 2] ++ be16 vid) ++ (be16 0x8000 ++ [14, 1] ++ [pcp]) ++ zeros 1
 
-/-- what the library makes of it: the vlan_vid field alone -/
-def matchVidOnlyV (vid : UInt16) : V :=
-  .obj "Match" [.num 1, .num 15, .list [.obj "MatchField" [.num 0x8000, .num 6, .num 0, .num 2, .num 0,
-    .obj "VlanIdField" [.num vid.toNat], .nil]]]
-
-/-- COUNTEREXAMPLE (a field is silently DROPPED): a flow-stats reply with two records, the first matching on
-    vlan_vid AND vlan_pcp, the second with the empty match.  Parse reports SUCCESS, and the first record's match holds
-    vlan_vid only — the vlan_pcp the switch wrote is gone.  (The field decoder fails on vlan_pcp; FlowStats keeps the
-    partly decoded match and only hands the error flag on; the multipart loop overwrites the flag with the next record's.
-    The same reply with that record alone, or with it in last position, is rejected.) -/
-theorem flowStatsReply_vlanPcp_dropped (xid : UInt32) (mpFlags : UInt16) (fx1 fx2 : Sw2.FsRec) (vid : UInt16) (pcp : UInt8)
-    (depth : Nat) (s : Slice) (hwf : s.WF)
-    (hb : s.bytes = hdr 19 136 xid ++ be16 1 ++ be16 mpFlags ++ zeros 4
-      ++ (flowStatsFixed 64 fx1.tableId fx1.durationSec fx1.durationNsec fx1.priority fx1.idleTimeout fx1.hardTimeout fx1.flags
-            fx1.cookie fx1.packetCount fx1.byteCount ++ matchVidPcp vid pcp)
-      ++ (flowStatsFixed 56 fx2.tableId fx2.durationSec fx2.durationNsec fx2.priority fx2.idleTimeout fx2.hardTimeout fx2.flags
-            fx2.cookie fx2.packetCount fx2.byteCount ++ matchEmpty)) :
-    parse depth s = .ok (.obj "MultipartReply" [hdrV 19 136 xid, .num 1, .num mpFlags.toNat, .bytes [], .list [
-      flowStatsV 64 fx1.tableId fx1.durationSec fx1.durationNsec fx1.priority fx1.idleTimeout fx1.hardTimeout fx1.flags
-        fx1.cookie fx1.packetCount fx1.byteCount (matchVidOnlyV vid) [],
-      flowStatsV 56 fx2.tableId fx2.durationSec fx2.durationNsec fx2.priority fx2.idleTimeout fx2.hardTimeout fx2.flags
-        fx2.cookie fx2.packetCount fx2.byteCount Sw.matchEmptyV []]]) := by
-  have hvid : (⟨6, .u16 vid, none⟩ : Sw2.Oxm).WF := ⟨"VlanIdField", rfl, trivial, by simp⟩
-  have hfs : ∀ p ∈ oxmPairs [⟨6, .u16 vid, none⟩], Sw2.FieldDec p.1 p.2 := by
+/-- COUNTEREXAMPLE: a flow-stats reply in which — after ANY list of decodable records — comes a record whose match holds,
+    after any list of decodable basic-class fields, a TLV of an unsupported field (in_phy_port, vlan_pcp, ip_ecn, mpls_tc,
+    pbb_isid, ipv6_exthdr) that ends the match (`mtail`: its payload and the padding; `hfit`: the TLV lies within the last
+    8-byte block of the match, e.g. the 5-byte vlan_pcp behind vlan_vid), followed by ANY list of decodable instructions:
+    the reply is REJECTED, whatever follows that record (`tail`: further records, anything).  The field decoder fails,
+    FlowStats hands the error on, and the multipart loop returns it at the first failing record.  (Before the repair of
+    the loop the error was overwritten by the next record's result and the field was lost without notice.) -/
+theorem flowStatsReply_unsupportedField_rejected (xid : UInt32) (mpFlags len : UInt16) (rs : List Sw2.FsRec)
+    (hrs : ∀ r ∈ rs, r.OK) (fx : Sw2.FsRec) (os : List Sw2.Oxm) (hos : ∀ o ∈ os, o.WF) (f : Nat) (hf : Sw2.Unsupported f)
+    (hasMask : Bool) (fieldLen : UInt8) (mlen : UInt16) (mtail : Bytes)
+    (hmlen : 4 + (Sw2.tlvCat (oxmPairs os)).length < mlen.toNat)
+    (hfit : 4 + (Sw2.tlvCat (oxmPairs os)).length + 4 + mtail.length = (4 + (Sw2.tlvCat (oxmPairs os)).length + 7) / 8 * 8)
+    (is : List (Bytes × V)) (his : ∀ p ∈ is, Sw2.InstrDec p.1 p.2)
+    (hsize : 48 + (4 + (Sw2.tlvCat (oxmPairs os)).length + 4 + mtail.length) + (Sw2.wireCat is).length < 60000)
+    (tail : Bytes) (hlen : 16 + (Sw2.recsBytes rs).length < len.toNat) (depth : Nat) (s : Slice) (hwf : s.WF)
+    (hb : s.bytes = hdr 19 len xid ++ be16 1 ++ be16 mpFlags ++ zeros 4 ++ Sw2.recsBytes rs
+      ++ (flowStatsFixed (UInt16.ofNat (48 + (4 + (Sw2.tlvCat (oxmPairs os)).length + 4 + mtail.length) + (Sw2.wireCat is).length))
+            fx.tableId fx.durationSec fx.durationNsec fx.priority fx.idleTimeout fx.hardTimeout fx.flags fx.cookie fx.packetCount
+            fx.byteCount
+          ++ (be16 1 ++ be16 mlen ++ Sw2.tlvCat (oxmPairs os)
+            ++ (be16 0x8000 ++ [UInt8.ofNat (2 * f + (if hasMask then 1 else 0)), fieldLen]) ++ mtail)
+          ++ Sw2.wireCat is)
+      ++ tail) :
+    parse depth s = .err := by
+  have hfs : ∀ p ∈ oxmPairs os, Sw2.FieldDec p.1 p.2 := by
     intro p hp
     obtain ⟨o, ho, rfl⟩ := List.mem_map.mp hp
-    simp only [List.mem_cons, List.not_mem_nil, or_false] at ho
-    subst ho
-    exact oxm_basic _ hvid
-  have hm1 : ∀ (a b : V) (dm : Slice), dm.WF → ∀ rest, dm.bytes = matchVidPcp vid pcp ++ rest →
-      Match.unmarshalP (.obj "Match" [a, b, .list []]) dm = .ok (matchVidOnlyV vid, true) := by
-    intro a b dm hdmwf rest h
-    exact Sw2.match_unsupportedP a b (oxmPairs [⟨6, .u16 vid, none⟩]) hfs 7 (by decide) 0 (by decide) 1 15 ([pcp] ++ zeros 1 ++ rest)
-      dm hdmwf (by show 4 + 6 < 15; decide) (by rw [h]; simp only [matchVidPcp, List.append_assoc]; rfl)
-  have := Sw2.flowStats_reply_two_flag xid mpFlags (mkRec fx1 (matchVidPcp vid pcp) (matchVidOnlyV vid) [] [])
-    (mkRec fx2 matchEmpty Sw.matchEmptyV [] []) true hm1 16 rfl rfl
-    (instructions_of_list [] (by simp) (by decide)) (emptyRec_ok fx2) (by show 16 + (64 + 56) < 65536; decide) depth s hwf
+    exact oxm_basic o (hos o ho)
+  obtain ⟨ml, hml, hmlv⟩ := Sw2.match_len_any (.num 1) (.num mlen.toNat) (oxmPairs os) hfs (by omega)
+  have hmbl : (be16 1 ++ (be16 mlen ++ (Sw2.tlvCat (oxmPairs os)
+      ++ (be16 0x8000 ++ ([UInt8.ofNat (2 * f + (if hasMask then 1 else 0)), fieldLen] ++ mtail))))).length
+      = 4 + (Sw2.tlvCat (oxmPairs os)).length + 4 + mtail.length := by simp; omega
+  have := Sw2.flowStats_reply_flag_err xid mpFlags len rs hrs
+    (mkRec fx (be16 1 ++ (be16 mlen ++ (Sw2.tlvCat (oxmPairs os)
+        ++ (be16 0x8000 ++ ([UInt8.ofNat (2 * f + (if hasMask then 1 else 0)), fieldLen] ++ mtail)))))
+      (.obj "Match" [.num 1, .num mlen.toNat, .list ((oxmPairs os).map Prod.snd)]) (Sw2.wireCat is) (is.map Prod.snd))
+    (by
+      intro a b dm hdmwf rest h
+      exact Sw2.match_unsupportedP a b (oxmPairs os) hfs f hf (if hasMask then 1 else 0) (by cases hasMask <;> simp) fieldLen mlen
+        (mtail ++ rest) dm hdmwf hmlen (by rw [h]; simp only [mkRec, List.append_assoc]))
+    ml hml (by rw [hmlv, ← hfit]; exact hmbl.symm)
+    (instructions_of_list is his (by omega))
+    (by simp only [Sw2.FsRec.size, mkRec, hmbl]; omega)
+    tail hlen depth s hwf
     (by
       rw [hb]
-      simp only [hdr, flowStatsFixed, Sw2.FsRec.bytes, Sw2.FsRec.size, mkRec, List.append_assoc, List.append_nil]
-      rfl)
+      simp only [hdr, flowStatsFixed, Sw2.FsRec.bytes, Sw2.FsRec.size, mkRec, hmbl, List.append_assoc])
   exact this
 
-/-- an IPv6 packet (next header 0) with a hop-by-hop header made of a Pad1 option (one zero byte) and a PadN option of
-    5 bytes (01 03 00 00 00), in front of an ICMPv6 echo request -/
-def ipv6HbhPad1 : Bytes :=
-  be32 0x60000000 ++ be16 20 ++ [0, 64] ++ (zeros 15 ++ [1]) ++ (zeros 15 ++ [2])
-    ++ [58, 0, 0, 1, 3, 0, 0, 0] ++ icmpBytes 128 0 0x1234 [1, 2, 3, 4]
-
-/-- COUNTEREXAMPLE (concrete): the packet-in carrying that packet is REJECTED — the option decoder knows no Pad1 (a
-    single byte without length), reads the following option type as a length and ends up taking the ICMPv6 type byte
-    (128) for an option length -/
-theorem packetIn_ipv6_pad1_rejected :
-    parse 0 (Slice.exact (hdr 10 112 3 ++ packetInFixed 0xffffffff 70 0 0 0 ++ matchInPort 1 ++ zeros 2
-      ++ ethBytes [0x33, 0x33, 0, 0, 0, 1] [2, 0, 0, 0, 0, 1] 0x86dd ipv6HbhPad1)) = .err := by
-  rfl
+/-- COUNTEREXAMPLE (instance of the above; this is the reply that used to lose the priority SILENTLY): after any decodable
+    records, a record matching on vlan_vid AND vlan_pcp, with any decodable instructions, followed by anything — REJECTED -/
+theorem flowStatsReply_vlanPcp_rejected (xid : UInt32) (mpFlags len : UInt16) (rs : List Sw2.FsRec) (hrs : ∀ r ∈ rs, r.OK)
+    (fx : Sw2.FsRec) (vid : UInt16) (pcp : UInt8) (is : List (Bytes × V)) (his : ∀ p ∈ is, Sw2.InstrDec p.1 p.2)
+    (hsize : 64 + (Sw2.wireCat is).length < 60000) (tail : Bytes) (hlen : 16 + (Sw2.recsBytes rs).length < len.toNat)
+    (depth : Nat) (s : Slice) (hwf : s.WF)
+    (hb : s.bytes = hdr 19 len xid ++ be16 1 ++ be16 mpFlags ++ zeros 4 ++ Sw2.recsBytes rs
+      ++ (flowStatsFixed (UInt16.ofNat (64 + (Sw2.wireCat is).length)) fx.tableId fx.durationSec fx.durationNsec fx.priority
+            fx.idleTimeout fx.hardTimeout fx.flags fx.cookie fx.packetCount fx.byteCount ++ matchVidPcp vid pcp ++ Sw2.wireCat is)
+      ++ tail) :
+    parse depth s = .err := by
+  have hvid : ∀ o ∈ [(⟨6, .u16 vid, none⟩ : Sw2.Oxm)], o.WF := by
+    intro o ho
+    simp only [List.mem_cons, List.not_mem_nil, or_false] at ho
+    subst ho
+    exact ⟨"VlanIdField", rfl, trivial, by simp⟩
+  have hl : (Sw2.tlvCat (oxmPairs [⟨6, .u16 vid, none⟩])).length = 6 := rfl
+  exact flowStatsReply_unsupportedField_rejected xid mpFlags len rs hrs fx [⟨6, .u16 vid, none⟩] hvid 7 (by decide) false 1 15
+    ([pcp] ++ zeros 1) (by rw [hl]; decide) (by rw [hl]; rfl) is his (by rw [hl]; show 48 + 16 + _ < 60000; omega) tail hlen
+    depth s hwf
+    (by
+      rw [hb, hl]
+      simp only [matchVidPcp, List.append_assoc]
+      rfl)
 
 /-! ## Examples: every theorem instantiated with concrete values -/
 
@@ -994,11 +1238,11 @@ example : Sw2.Dec (Sw2.ip6Data 58) (icmpBytes 135 0 0x1234 [1, 2]) (icmpV 135 0 
 example : Sw2.Dec (Sw2.ip6Data 17) (udpBytes 546 547 10 0 [7, 7]) (udpV 546 547 10 0 [7, 7]) := u6_udp 546 547 10 0 [7, 7]
 example : Sw2.Dec (Sw2.ip6Data 6) [1, 2, 3] (.obj "u.Buffer" [.bytes [1, 2, 3]]) := u6_other 6 (by decide) (by decide) [1, 2, 3]
 example : Sw2.Chain 58 [] 58 .nil .nil .nil := chain_none 58 (by decide)
-example : Sw2.Chain 0 (hbhBytes 58 1 (zeros 4)) 58 (hbhV 58 1 (zeros 4)) .nil .nil := chain_hbh 58 1 (zeros 4) rfl (by decide)
+example : Sw2.Chain 0 (hbhBytes 58 1 (zeros 4)) 58 (hbhV 58 1 (zeros 4)) .nil .nil := chain_hbh 58 1 (by decide) (zeros 4) rfl (by decide)
 example : Sw2.Chain 44 (fragBytes 17 185 true 0xdeadbeef) 17 .nil .nil (fragV 17 185 true 0xdeadbeef) :=
   chain_frag 17 185 true 0xdeadbeef (by decide) (by decide)
 example : Sw2.Chain 0 (hbhBytes 44 1 (zeros 4) ++ fragBytes 6 0 false 7) 6 (hbhV 44 1 (zeros 4)) .nil (fragV 6 0 false 7) :=
-  chain_hbh_frag 1 (zeros 4) rfl 6 0 false 7 (by decide) (by decide)
+  chain_hbh_frag 1 (by decide) (zeros 4) rfl 6 0 false 7 (by decide) (by decide)
 example : Sw2.Dec (PIPv4.unmarshal PIPv4.zero) ((ip4h 1).bytes ++ icmpBytes 8 0 0x1234 [1, 2]) ((ip4h 1).val (icmpV 8 0 0x1234 [1, 2])) :=
   ipv4_packet (ip4h 1) (by decide) _ _ (l4_icmp 8 0 0x1234 [1, 2])
 example : Sw2.Dec (PIPv6.unmarshal PIPv6.zero) ((ip6h 58).bytes ++ [] ++ icmpBytes 135 0 0x1234 [1, 2])
@@ -1020,7 +1264,7 @@ example : FrameDec (ethTaggedBytes macA macB 0 0 100 0x0800 ((ip4h 6).bytes ++ [
     (by decide) (by decide)
 example : FrameDec (ethBytes macA macB 0x86dd ((ip6h 0).bytes ++ hbhBytes 58 1 (zeros 4) ++ icmpBytes 130 0 0x1234 [0, 0, 0, 0]))
     (ethFrameV macA macB noVlanV 0x86dd ((ip6h 0).val (hbhV 58 1 (zeros 4)) .nil .nil (icmpV 130 0 0x1234 [0, 0, 0, 0]))) :=
-  frame_ipv6_hbh_icmpv6 macA macB (ip6h 0) 1 (zeros 4) 130 0 0x1234 [0, 0, 0, 0] rfl rfl (by decide) rfl rfl
+  frame_ipv6_hbh_icmpv6 macA macB (ip6h 0) 1 (zeros 4) 130 0 0x1234 [0, 0, 0, 0] rfl rfl (by decide) rfl (by decide) rfl
 
 /-- packet-in, in_port match, IPv4/ICMP echo request -/
 example : parse 0 (Slice.exact (hdr 10 82 3 ++ packetInFixed 0xffffffff 40 0 0 0 ++ matchInPort 1 ++ zeros 2
@@ -1054,7 +1298,7 @@ example : ∃ v, parse 0 (Slice.exact (hdr 10 128 3 ++ packetInFixed 7 86 1 2 0x
       ++ ethTaggedBytes macA macB 7 1 4095 0x86dd ((ip6h 0).bytes ++ (hbhBytes 44 1 (zeros 4) ++ fragBytes 17 185 true 0xdeadbeef)
         ++ udpBytes 546 547 12 0 [1, 2, 3, 4]))) = .ok v :=
   ⟨_, packetIn_vlan_ipv6_hbh_frag_udp 3 128 7 86 1 2 0xabc _ _ (matchInPort_dec 1) macA macB 7 1 4095 (ip6h 0) 1 (zeros 4) 185 true
-    0xdeadbeef 546 547 12 0 [1, 2, 3, 4] rfl rfl (by decide) (by decide) (by decide) (by decide) rfl rfl (by decide)
+    0xdeadbeef 546 547 12 0 [1, 2, 3, 4] rfl rfl (by decide) (by decide) (by decide) (by decide) rfl (by decide) rfl (by decide)
     0 _ (Slice.exact_wf _) (Sw.exact_bytes _)⟩
 
 example : ∃ v, parse 0 (Slice.exact (hdr 10 108 3 ++ packetInFixed 7 66 1 2 0xabc ++ matchInPort 1 ++ zeros 2
@@ -1171,26 +1415,53 @@ example : parse 0 (Slice.exact (hdr 10 72 3 ++ packetInFixed 0xffffffff 18 0 0 0
       exact ⟨"InPortField", rfl, trivial, by simp⟩) 1 (by decide) false 4 20 _ (by decide) 0 _ (Slice.exact_wf _)
     (Sw.exact_bytes _)
 
-/-- COUNTEREXAMPLE instance: meter 5 -/
-example : parse 0 (Slice.exact (hdr 19 (UInt16.ofNat (16 + (48 + matchEmpty.length + 8))) 3 ++ be16 1 ++ be16 0 ++ zeros 4
-      ++ (flowStatsFixed (UInt16.ofNat (48 + matchEmpty.length + 8)) 3 100 5000 0x8000 60 0 1 0xc00c1e 12 3400 ++ matchEmpty
-        ++ (be16 6 ++ be16 8 ++ (be16 0 ++ be16 5))))) = .err :=
-  flowStatsReply_meter_rejected 3 0 fxA matchEmpty _ matchEmpty_dec 5 0 _ (Slice.exact_wf _) (Sw.exact_bytes _)
+/-- a goto-table instruction, with wire form and value -/
+def gotoNine : List (Bytes × V) := [(be16 1 ++ (be16 8 ++ [9, 0, 0, 0]), Sw.gotoTableV 9)]
 
-/-- COUNTEREXAMPLE instance: set_nw_ttl 64 -/
-example : parse 0 (Slice.exact (hdr 19 (UInt16.ofNat (16 + (48 + matchEmpty.length + 16))) 3 ++ be16 1 ++ be16 0 ++ zeros 4
+/-- meter 5 behind a goto-table instruction -/
+example : ∃ v, parse 0 (Slice.exact (hdr 19 (UInt16.ofNat (16 + (48 + matchEmpty.length + ((Sw2.wireCat gotoNine).length + 8
+        + (Sw2.wireCat []).length)))) 3 ++ be16 1 ++ be16 0 ++ zeros 4
+      ++ (flowStatsFixed (UInt16.ofNat (48 + matchEmpty.length + ((Sw2.wireCat gotoNine).length + 8 + (Sw2.wireCat []).length)))
+          3 100 5000 0x8000 60 0 1 0xc00c1e 12 3400
+        ++ matchEmpty ++ (Sw2.wireCat gotoNine ++ (be16 6 ++ be16 8 ++ be32 5) ++ Sw2.wireCat [])))) = .ok v :=
+  ⟨_, flowStatsReply_meter 3 0 fxA matchEmpty _ matchEmpty_dec 5 gotoNine []
+    (by
+      intro p hp
+      simp only [gotoNine, List.mem_cons, List.not_mem_nil, or_false] at hp
+      subst hp
+      exact instruction_gotoTable 9) (by simp) (by show 16 + (48 + 8 + (8 + 8 + 0)) < 65536; decide) 0 _ (Slice.exact_wf _)
+    (Sw.exact_bytes _)⟩
+
+/-- set_nw_ttl 64 -/
+example : ∃ v, parse 0 (Slice.exact (hdr 19 (UInt16.ofNat (16 + (48 + matchEmpty.length + 16))) 3 ++ be16 1 ++ be16 0 ++ zeros 4
       ++ (flowStatsFixed (UInt16.ofNat (48 + matchEmpty.length + 16)) 3 100 5000 0x8000 60 0 1 0xc00c1e 12 3400 ++ matchEmpty
-        ++ (be16 4 ++ be16 16 ++ zeros 4 ++ (be16 23 ++ be16 8 ++ [64, 0, 0, 0]))))) = .err :=
-  flowStatsReply_setNwTtl_rejected 3 0 fxA matchEmpty _ matchEmpty_dec 64 (by decide) 0 _ (Slice.exact_wf _) (Sw.exact_bytes _)
+        ++ (be16 4 ++ be16 16 ++ zeros 4 ++ (be16 23 ++ be16 8 ++ [64, 0, 0, 0]))))) = .ok v :=
+  ⟨_, flowStatsReply_setNwTtl 3 0 fxA matchEmpty _ matchEmpty_dec 64 0 _ (Slice.exact_wf _) (Sw.exact_bytes _)⟩
 
-/-- COUNTEREXAMPLE instance: vlan 5 with priority 3 — the priority is lost without any error -/
-example : parse 0 (Slice.exact (hdr 19 136 3 ++ be16 1 ++ be16 0 ++ zeros 4
-      ++ (flowStatsFixed 64 3 100 5000 0x8000 60 0 1 0xc00c1e 12 3400 ++ matchVidPcp 0x1005 3)
-      ++ (flowStatsFixed 56 3 100 5000 0x8000 60 0 1 0xc00c1e 12 3400 ++ matchEmpty)))
-    = .ok (.obj "MultipartReply" [hdrV 19 136 3, .num 1, .num 0, .bytes [], .list [
-        flowStatsV 64 3 100 5000 0x8000 60 0 1 0xc00c1e 12 3400 (matchVidOnlyV 0x1005) [],
-        flowStatsV 56 3 100 5000 0x8000 60 0 1 0xc00c1e 12 3400 Sw.matchEmptyV []]]) :=
-  flowStatsReply_vlanPcp_dropped 3 0 fxA fxA 0x1005 3 0 _ (Slice.exact_wf _) (Sw.exact_bytes _)
+/-- apply-actions [output, set_nw_ttl 64, set_mpls_ttl 32, copy_ttl_out, copy_ttl_in, dec_mpls_ttl, pop_pbb] -/
+example : ∃ iv, Sw2.InstrDec (be16 4 ++ (be16 (UInt16.ofNat (8 + (Sw2.wireCat ([(be16 0 ++ (be16 16 ++ (be32 2 ++ (be16 0xffff
+      ++ zeros 6))), Sw2.outputV 2 0xffff)] ++ ttlActions 64 32 ++ [])).length)) ++ (zeros 4 ++ Sw2.wireCat ([(be16 0 ++ (be16 16 ++
+      (be32 2 ++ (be16 0xffff ++ zeros 6))), Sw2.outputV 2 0xffff)] ++ ttlActions 64 32 ++ [])))) iv :=
+  ⟨_, instruction_ttlActions 4 (by decide) 64 32 [(_, _)] []
+    (by
+      intro p hp
+      simp only [List.mem_cons, List.not_mem_nil, or_false] at hp
+      subst hp
+      exact action_output 2 0xffff) (by simp) (by decide)⟩
+
+example : Sw2.Chain 0 (hbhOptsBytes 58 1 [.tlv 5 [0, 0], .pad1, .tlv 1 [0, 0, 0, 0, 0, 0], .pad1]) 58
+    (Sw2.hbhOptsV 58 1 [.tlv 5 [0, 0], .pad1, .tlv 1 [0, 0, 0, 0, 0, 0], .pad1]) .nil .nil :=
+  chain_hbh_options 58 1 _ (by decide) (by decide) (by decide)
+example : ∃ hv, Sw2.Chain 0 [58, 0, 0, 1, 3, 0, 0, 0] 58 hv .nil .nil := ⟨_, chain_hbh_pad1 58 (by decide)⟩
+example : ∃ hv, Sw2.Chain 0 ([58, 0, 5, 2] ++ (be16 0 ++ [0, 0])) 58 hv .nil .nil := ⟨_, chain_hbh_routerAlert_pad1 58 0 (by decide)⟩
+
+/-- COUNTEREXAMPLE instance: vlan 5 with priority 3 in the first of two records — the reply is rejected -/
+example : parse 0 (Slice.exact (hdr 19 136 3 ++ be16 1 ++ be16 0 ++ zeros 4 ++ Sw2.recsBytes []
+      ++ (flowStatsFixed (UInt16.ofNat (64 + (Sw2.wireCat []).length)) 3 100 5000 0x8000 60 0 1 0xc00c1e 12 3400
+          ++ matchVidPcp 0x1005 3 ++ Sw2.wireCat [])
+      ++ (flowStatsFixed 56 3 100 5000 0x8000 60 0 1 0xc00c1e 12 3400 ++ matchEmpty))) = .err :=
+  flowStatsReply_vlanPcp_rejected 3 0 136 [] (by simp) fxA 0x1005 3 [] (by simp) (by decide) _ (by decide) 0 _
+    (Slice.exact_wf _) (Sw.exact_bytes _)
 
 end Examples
 
